@@ -290,3 +290,112 @@ def structure_problems(mi) -> list[str]:
             elif this_sp != sp:
                 out.append(f"block {key} spatial extents {this_sp} != {sp}")
     return out
+
+
+# ---------------------------------------------------------------------------------------------
+class ArithMonitor:
+    """R-monitor on MultiImage.__add__/__sub__/__mul__/__truediv__/__eq__: every concrete return is
+    compared type-by-type with NumPy on the operands' blocks *looked up by key*."""
+
+    def __init__(self, tol=1e-5):
+        self.viol = []
+        self.checked = {"add": 0, "sub": 0, "mul": 0, "div": 0, "eq": 0}
+        self.tol = tol
+        self.log = probes.EventLog()
+        self.log.enabled = False
+
+    def install(self):
+        from ginjax.geometric.multi_image import MultiImage
+
+        for name, op in (("__add__", "add"), ("__sub__", "sub"), ("__mul__", "mul"), ("__truediv__", "div"), ("__eq__", "eq")):
+            probes.wrap_method(MultiImage, name, f"MultiImage.{name}", self.log, lambda ev, op=op: self._on(op, ev))
+        return self
+
+    def _on(self, op, ev):
+        from ginjax.geometric.multi_image import MultiImage
+
+        a, out = ev["obj"], ev["out"]
+        b = ev["args"][0] if ev["args"] else list(ev["kwargs"].values())[0]
+        self.check(op, a, b, out, ev["args"][1:], ev["kwargs"])
+
+    def check(self, op, a, b, out, extra=(), kw=None):
+        from ginjax.geometric.multi_image import MultiImage
+
+        self.checked[op] += 1
+        A = probes.blocks(a)
+        base = dict(op=op, a_order=[list(k) for k in A], D=a.D)
+        if op in ("add", "sub"):
+            Bk = probes.blocks(b)
+            base["b_order"] = [list(k) for k in Bk]
+            if set(A) != set(Bk):
+                self.viol.append(viol("arith-different-type-sets-combined", f"{op}: operands with different type sets were combined: {list(A)} vs {list(Bk)}", **base))
+                return
+            O = probes.blocks(out)
+            if set(O) != set(A):
+                self.viol.append(viol("arith-type-set-changed", f"{op}: result types {list(O)} != operand types {list(A)}", **base))
+                return
+            for t in A:
+                if A[t].shape != Bk[t].shape:
+                    continue  # not a well-formed pair; the library may broadcast or raise, not judged
+                want = A[t] + Bk[t] if op == "add" else A[t] - Bk[t]
+                if O[t].shape != want.shape or err_exact(O[t], want) > self.tol:
+                    src = self._who(O[t], A, Bk, t, op)
+                    mech = "D2-arith-positional-pairing" if (list(A) != list(Bk)) else "arith-value-mismatch"
+                    self.viol.append(viol(mech, f"(a {op} b)[{t}] != a[{t}] {op} b[{t}]; a order {list(A)}, b order {list(Bk)}; {src}", **base, block=list(t), got=small(O[t]), want=small(want)))
+                    return
+            if out.D != a.D or tuple(out.is_torus) != tuple(a.is_torus):
+                self.viol.append(viol("arith-metadata", f"{op}: D/is_torus changed", **base))
+        elif op in ("mul", "div"):
+            if isinstance(b, MultiImage):
+                return
+            s = float(np.asarray(b))
+            O = probes.blocks(out)
+            if set(O) != set(A):
+                self.viol.append(viol("arith-type-set-changed", f"{op}: result types {list(O)} != operand types {list(A)}", **base))
+                return
+            for t in A:
+                want = A[t] * s if op == "mul" else A[t] / s
+                if O[t].shape != want.shape or err_exact(O[t], want) > max(self.tol, 1e-5):
+                    self.viol.append(viol("arith-scalar-mismatch", f"(a {op} {s})[{t}] wrong", **base, block=list(t), got=small(O[t]), want=small(want)))
+                    return
+        elif op == "eq":
+            if not isinstance(b, MultiImage):
+                if bool(out):
+                    self.viol.append(viol("eq-non-multiimage", "a == <non MultiImage> returned True", **base))
+                return
+            Bk = probes.blocks(b)
+            rtol = extra[0] if len(extra) > 0 else (kw or {}).get("rtol", 1e-5)
+            atol = extra[1] if len(extra) > 1 else (kw or {}).get("atol", 1e-5)
+            want = a.D == b.D and tuple(a.is_torus) == tuple(b.is_torus) and set(A) == set(Bk)
+            margin_ok = True
+            if want:
+                for t in A:
+                    if A[t].shape != Bk[t].shape:
+                        want = False
+                        break
+                    diff = np.abs(A[t] - Bk[t])
+                    lim = atol + rtol * np.abs(Bk[t])
+                    if np.any(diff > lim):
+                        want = False
+                    # grey zone: differences within a factor 2 of the tolerance are not judged
+                    if np.any((diff > 0.5 * lim) & (diff < 2 * lim) & (diff > 0)):
+                        margin_ok = False
+            if margin_ok and bool(out) != bool(want):
+                mech = "eq-positional" if list(A) != list(Bk) else "eq-mismatch"
+                self.viol.append(viol(mech, f"a == b returned {bool(out)}, type-wise comparison says {bool(want)}; orders {list(A)} / {list(Bk)}", **base))
+
+    @staticmethod
+    def _who(got, A, Bk, t, op):
+        """With unique-id payloads: name the blocks that were actually combined."""
+        g = got.reshape(-1)
+        for ta in A:
+            for tb in Bk:
+                if A[ta].size == g.size and Bk[tb].size == g.size:
+                    w = A[ta].reshape(-1) + Bk[tb].reshape(-1) if op == "add" else A[ta].reshape(-1) - Bk[tb].reshape(-1)
+                    if np.array_equal(w, g):
+                        return f"block {ta} of a was combined with block {tb} of b"
+        return "combined blocks not identifiable"
+
+    def take(self):
+        v, self.viol = self.viol, []
+        return v
